@@ -542,6 +542,10 @@ var _ rpc.Resources
 //@ func (*wsConn).listen
 //@   requires predConnOK(c) && ws != nil
 //@   ensures[C11] callcount("Dispose") == old(callcount("Dispose")) + 1
+// (a connection that completes its upgrade while the service is stopping, or after it has
+// stopped, is closed at once: Stop closes the sockets it can see, and sees them under the same
+// lock the socket is published under)
+//@   ensures[C20] old(c.serv.stop) == nil || old(c.serv.stopping) ==> callcount("Close") > old(callcount("Close"))
 //@   assert[C11] c.Dispose#1: c.ws == ws
 //@   safety[C15]
 //@   loop 1 invariant callcount("Dispose") == old(callcount("Dispose")) && c.ws == ws
